@@ -355,6 +355,25 @@ class SymTensor:
     def norm(self):
         return SymTensor(NORM(self.v), dtype=self.dtype, scalar=True)
 
+    def _scmp(self, o, op):
+        if not self.scalar:
+            raise ShadowAbort("comparison of a non-scalar abstract tensor")
+        a = self.item()
+        b = o.item() if isinstance(o, SymTensor) else o
+        return op(a, b)
+
+    def __gt__(self, o):
+        return self._scmp(o, lambda a, b: a > b)
+
+    def __ge__(self, o):
+        return self._scmp(o, lambda a, b: a >= b)
+
+    def __lt__(self, o):
+        return self._scmp(o, lambda a, b: a < b)
+
+    def __le__(self, o):
+        return self._scmp(o, lambda a, b: a <= b)
+
     def __repr__(self):
         return f"<SymTensor {self.name or ''} sid={self.cell.sid} v{self.cell.version}>"
 
@@ -605,3 +624,98 @@ def _install_matrix_ops():
 
 
 _install_matrix_ops()
+
+
+# ---------------------------------------------------------------------------------------------------------
+# dense linear algebra by contract (uninterpreted; dtype discipline as in real torch)
+
+
+def _arr(t):
+    return t.v if not t.scalar else z3.K(z3.IntSort(), t.at(0))
+
+
+def _matmul(a, b):
+    if a.dtype is not None and b.dtype is not None and a.dtype != b.dtype:
+        raise RuntimeError(f"expected m1 and m2 to have the same dtype, but got: {a.dtype} != {b.dtype}")
+    sa, sb = list(a.size()), list(b.size())
+    shape = sa[:-1] + sb[1:] if len(sb) > 1 else sa[:-1]
+    return SymTensor(uf("matmul", ARR, ARR, ARR)(_arr(a), _arr(b)), dtype=a.dtype, shape=shape)
+
+
+class _QR:
+    def __init__(self, a):
+        self.Q = SymTensor(uf("qr_Q", ARR, ARR)(_arr(a)), dtype=a.dtype, shape=a.size())
+        self.R = SymTensor(uf("qr_R", ARR, ARR)(_arr(a)), dtype=a.dtype, shape=a.size())
+
+
+class _Linalg:
+    def __init__(self, log):
+        self.log = log
+
+    def qr(self, a):
+        self.log.append(("qr", a.v))
+        return _QR(a)
+
+    def eigh(self, a):
+        self.log.append(("eigh", a.v, a.dtype))
+        n = a.size()[0]
+        L = SymTensor(uf("eigh_L", ARR, ARR)(_arr(a)), dtype=a.dtype, shape=(n,))
+        Q = SymTensor(uf("eigh_Q", ARR, ARR)(_arr(a)), dtype=a.dtype, shape=a.size())
+        return L, Q
+
+    def norm(self, a):
+        return a.norm()
+
+    def matrix_norm(self, a, ord=None):
+        return SymTensor(uf(f"matrix_norm_{ord}", ARR, z3.RealSort())(_arr(a)), dtype=a.dtype, scalar=True)
+
+    def vector_norm(self, a, ord=None):
+        return SymTensor(uf(f"vector_norm_{ord}", ARR, z3.RealSort())(_arr(a)), dtype=a.dtype, scalar=True)
+
+    def matrix_power(self, a, n):
+        e = n.t if isinstance(n, SymInt) else z3.IntVal(int(n))
+        return SymTensor(uf("matrix_power", ARR, z3.IntSort(), ARR)(_arr(a), e), dtype=a.dtype, shape=a.size())
+
+
+def _install_linalg():
+    SymTensor.__matmul__ = lambda self, o: _matmul(self, o)
+
+    def T(self):
+        return _permute(self, list(reversed(range(len(self.size())))))
+
+    SymTensor.T = property(T)
+
+    def getitem(self, key):
+        f = uf("index_" + _sig(tuple("slice" if isinstance(k, slice) else ("t" if isinstance(k, SymTensor) else str(k)) for k in (key if isinstance(key, tuple) else (key,)))), ARR, ARR, ARR)
+        tens = [k for k in (key if isinstance(key, tuple) else (key,)) if isinstance(k, SymTensor)]
+        kv = _arr(tens[0]) if tens else z3.K(z3.IntSort(), z3.RealVal(0))
+        return SymTensor(f(_arr(self), kv), dtype=self.dtype, shape=self._shape)
+
+    SymTensor.__getitem__ = getitem
+    SymTensor.argsort = lambda self: SymTensor(uf("argsort", ARR, ARR)(_arr(self)), dtype=None, shape=self._shape)
+    SymTensor.unsqueeze = lambda self, d: SymTensor(None, dtype=self.dtype, shape=None, cell=self.cell)
+
+    def einsum(self_, eq, *ops):
+        f = uf("einsum_" + _sig(eq) + f"_{len(ops)}", *([ARR] * len(ops)), ARR)
+        return SymTensor(f(*[_arr(o) for o in ops]), dtype=ops[0].dtype, shape=None)
+
+    FakeTorch.einsum = einsum
+    FakeTorch.numel = lambda self_, t: t.numel()
+    FakeTorch.ones_like = lambda self_, t: SymTensor(z3.K(z3.IntSort(), z3.RealVal(1)), dtype=t.dtype, shape=t._shape)
+    FakeTorch.dist = lambda self_, a, b, p=2: SymTensor(uf(f"dist_{p}", ARR, ARR, z3.RealSort())(_arr(a), _arr(b)), dtype=a.dtype, scalar=True)
+
+    def eye(self_, n, dtype=None, device=None):
+        return SymTensor(uf("eye", z3.IntSort(), ARR)(n.t if isinstance(n, SymInt) else z3.IntVal(int(n))), dtype=dtype, shape=(n, n))
+
+    FakeTorch.eye = eye
+    orig_init = FakeTorch.__init__
+
+    def init(self_):
+        orig_init(self_)
+        self_.linalg_log = []
+        object.__setattr__(self_, "linalg", _Linalg(self_.linalg_log))
+
+    FakeTorch.__init__ = init
+
+
+_install_linalg()
